@@ -455,6 +455,25 @@ def gen(rng, alphabet, depth=3, binary=False, classes=True, size=None):
     return alt_(depth)
 
 
+def expanded_size(n):
+    """number of atoms after unrolling counted repeats: a cheap predictor of how large nmfu's subset-construction automaton gets
+    (its minimisation is a naive partition refinement, cubic-ish in that size)"""
+    t = n[0]
+    if t in ("ch", "any", "cls", "set"):
+        return 1
+    if t == "grp":
+        return expanded_size(n[1])
+    if t in ("alt", "seq"):
+        return sum(expanded_size(x) for x in n[1])
+    if t == "op":
+        return expanded_size(n[1]) * (2 if n[2] == "+" else 1)
+    if t == "rep":
+        lo, hi = n[2], n[3]
+        k = lo if hi == "exact" else (lo + 1 if hi is None else max(hi, 1))
+        return expanded_size(n[1]) * max(k, 1)
+    return 1
+
+
 def has_empty_set(n):
     """does the syntax tree contain a character set that matches nothing (e.g. [^\\w\\W])?"""
     t = n[0]
